@@ -437,6 +437,13 @@ func (e *env) runCase(cd caseDef) {
 	}
 	verifrt.Sleep(quiesce)
 	after := e.snapshot()
+	if cd.alt == "duty-beyond-gater-window" && e.gaterAllows(duty) {
+		// the epoch rolled over while the message was in flight (delivery delay, stalled node): the
+		// window, which only ever grows, now includes the duty; the message was not inadmissible when
+		// the node looked at it, so there is no verdict for this case
+		verifrt.Probe("gater-window-rolled-during-case")
+		return
+	}
 	e.mu.Lock()
 	done, rerr := ret.done, ret.err
 	e.mu.Unlock()
